@@ -137,25 +137,32 @@ def docutils_tables() -> dict:
     from docutils.writers import _html_base
     from docutils import statemachine
     from pydoctor.node2stan import HTMLTranslator
-    base = _html_base.HTMLTranslator
-    need(HTMLTranslator.encode is base.encode, 'pydoctor HTMLTranslator overrides encode')
-    need(HTMLTranslator.attval is base.attval, 'pydoctor HTMLTranslator overrides attval')
-    sc = HTMLTranslator.special_characters
-    need(isinstance(sc, dict) and all(isinstance(k, int) and isinstance(v, str) for k, v in sc.items()),
-         'special_characters')
-    f = fn_ast(base.encode)
-    body = strip_doc(f.body)
-    want = ast.parse('text = str(text)\nreturn text.translate(self.special_characters)').body
-    need(len(body) == 2 and all(ast.dump(a) == ast.dump(b) for a, b in zip(body, want)), 'docutils encode body')
-    f = fn_ast(base.attval)
-    body = strip_doc(f.body)
-    need(ast.dump(body[0]) == ast.dump(ast.parse("encoded = self.encode(whitespace.sub(' ', text))").body[0]),
-         'docutils attval first statement')
-    need(isinstance(body[-1], ast.Return) and is_name('encoded')(body[-1].value), 'docutils attval return')
-    ws_re = base.attval.__defaults__[0]
-    need(isinstance(ws_re, re.Pattern) and re.fullmatch(r'\[[^\]\\^-]*\]', ws_re.pattern) is not None, 'attval whitespace class')
-    ws = [c for c in range(0x110000) if ws_re.fullmatch(chr(c))]
-    need(sorted(ord(c) for c in ws_re.pattern[1:-1]) == ws, 'attval whitespace class members')
+    # encode / attval as pydoctor's translator really performs them (inherited, overridden or rewritten alike): probe every
+    # code point, then check on multi-character probes that both are character-wise (what the model assumes)
+    from docutils import utils as du_utils
+    tr = HTMLTranslator(du_utils.new_document('c10gen'), None)
+    sc = {}
+    for c in range(0x110000):
+        if 0xD800 <= c < 0xE000:
+            continue
+        ch = chr(c)
+        e = tr.encode(ch)
+        need(isinstance(e, str), 'encode() result')
+        if e != ch:
+            sc[c] = e
+    need(0 < len(sc) < 64, 'encode() changes %d characters' % len(sc))
+    space = tr.encode(' ')
+    ws = [c for c in range(0x110000) if not (0xD800 <= c < 0xE000) and c != 32 and tr.attval(chr(c)) == space and tr.encode(chr(c)) != space]
+    need(len(ws) < 32, 'attval() maps %d characters to a space' % len(ws))
+    enc1 = lambda t: ''.join(sc.get(ord(x), x) for x in t)
+    probes = ['', 'a<b>&"\'@c', 'x\ty\nz\r\x0b\x0c w', '\xa0\xe9\u2028<', '&amp;&lt;', ']]>-->', 'a' * 50 + '<' * 50] + \
+             [chr(a) + chr(b) for a in list(sc)[:8] + [65, 32, 9] for b in list(sc)[:8] + [66, 10]]
+    for t in probes:
+        need(tr.encode(t) == enc1(t), 'encode() is not the character-wise map on %r' % t)
+        need(tr.attval(t) == enc1(''.join(' ' if ord(x) in ws else x for x in t)), 'attval() is not encode after white-space folding on %r' % t)
+    for c in list(range(0x300)) + [0x2028, 0x3000, 0xfffd, 0x1f600]:
+        ch = chr(c)
+        need(tr.attval(ch) == enc1(' ' if c in ws else ch), 'attval(%r)' % ch)
     # reST input splitting
     s2l = statemachine.string2lines
     f = fn_ast(s2l)
@@ -174,58 +181,94 @@ def docutils_tables() -> dict:
     return {'special': sorted(sc.items()), 'attval_ws': ws, 'rst_ws': rst_ws, 'breaks': breaks, 'space': space}
 
 
+def _code_bytes(code: Any) -> List[bytes]:
+    out: List[bytes] = []
+    for c in code.co_consts:
+        if isinstance(c, bytes):
+            out.append(c)
+        elif hasattr(c, 'co_consts'):
+            out += _code_bytes(c)
+    return out
+
+
 def stanutils_tables() -> dict:
+    """html2stan by its BEHAVIOUR: which bytes it rewrites before parsing and into what is observed on the live function;
+    the wrapper and the XML-declaration test are read from the constants of its code (however the body is written, also
+    in same-module helpers); a reference implementation built from these tables must then agree with the live function
+    on a probe set (fail-closed otherwise)."""
     from pydoctor import stanutils
-    rc = stanutils._RE_CONTROL
-    need(isinstance(rc, re.Pattern) and isinstance(rc.pattern, bytes), '_RE_CONTROL is not a bytes pattern')
-    cls = [c for c in range(256) if rc.fullmatch(bytes([c]))]
-    # a character class: matches single bytes only, and exactly the members found by probing
-    need(rc.pattern[:1] == b'[' and rc.pattern[-1:] == b']', '_RE_CONTROL is not a character class')
-    for a in (cls[:3] + [65]):
-        for b in (cls[:3] + [66]):
-            need(rc.fullmatch(bytes([a, b])) is None, '_RE_CONTROL matches two bytes')
-    need(rc.fullmatch(b'') is None, '_RE_CONTROL matches the empty string')
-    f = fn_ast(stanutils.html2stan)
-    body = strip_doc(f.body)
-    need(len(body) == 5, 'html2stan has %d statements' % len(body))
-    need(ast.dump(body[0]) == ast.dump(ast.parse("if isinstance(html, str):\n    html = html.encode('utf8')").body[0]),
-         'html2stan: encode step')
-    st = body[1]
-    need(isinstance(st, ast.Assign) and is_name('html')(st.targets[0]) and isinstance(st.value, ast.Call)
-         and ast.dump(st.value.func) == ast.dump(ast.parse('_RE_CONTROL.sub').body[0].value)
-         and len(st.value.args) == 2 and is_name('html')(st.value.args[1]) and isinstance(st.value.args[0], ast.Lambda),
-         'html2stan: _RE_CONTROL.sub(lambda, html)')
-    lam = st.value.args[0]
-    fn = eval(compile(ast.Expression(lam), '<html2stan lambda>', 'eval'), {})
+    from xml.sax import SAXParseException
+    from twisted.web.template import XMLString, Tag
+    h2s, flat = stanutils.html2stan, stanutils.flatten
+    consts = list(_code_bytes(h2s.__code__))
+    for fobj in vars(stanutils).values():         # same-module helpers that html2stan may delegate to
+        if inspect.isfunction(fobj) and fobj.__module__ == stanutils.__name__ and fobj is not h2s \
+                and fobj.__name__ in h2s.__code__.co_names:
+            consts += _code_bytes(fobj.__code__)
+    for v in vars(stanutils).values():            # module-level byte templates
+        if isinstance(v, bytes):
+            consts.append(v)
+    wraps = sorted({c for c in consts if re.fullmatch(rb'<([a-z]+)>%s</\1>', c)})
+    need(len(wraps) == 1, 'html2stan: wrapper <x>%%s</x> not found among its constants: %r' % consts)
+    tag = re.fullmatch(rb'<([a-z]+)>%s</\1>', wraps[0]).group(1)
+    decls = sorted({c for c in consts if c.startswith(b'<?xml')})
+    need(decls == [b'<?xml'], 'html2stan: XML declaration test: %r' % decls)
+
+    def observe(data: Any) -> Any:
+        try:
+            return ('ok', flat(h2s(data)))
+        except SAXParseException:
+            return ('sax',)
+        except AssertionError:
+            return ('assert',)
+        except UnicodeError:
+            return ('unicode',)
     repl = []
-    for c in cls:
-        m = re.compile(b'[\x00-\xff]', re.S).match(bytes([c]))
-        r = fn(m)
-        need(isinstance(r, bytes), 'substitution is not bytes')
-        repl.append((c, r))
-    # and the compiled function really does that
-    for c, r in repl:
-        need(rc.sub(fn, b'a' + bytes([c]) + b'b') == b'a' + r + b'b', 'sub() result')
-    # if not html.startswith(b'<?xml'): stan = XMLString(b'<div>%s</div>' % html).load()[0]; asserts ... else: ...
-    iff = body[2]
-    need(isinstance(iff, ast.If) and ast.dump(iff.test) == ast.dump(ast.parse("not html.startswith(b'<?xml')").body[0].value),
-         'html2stan: <?xml test')
-    a0 = iff.body[0]
-    need(isinstance(a0, ast.Assign) and is_name('stan')(a0.targets[0]), 'html2stan: stan = ...')
-    wrap = None
-    for n in ast.walk(a0.value):
-        if isinstance(n, ast.BinOp) and isinstance(n.op, ast.Mod) and isinstance(n.left, ast.Constant) \
-                and isinstance(n.left.value, bytes) and is_name('html')(n.right):
-            wrap = n.left.value
-    need(wrap is not None and wrap.count(b'%') == 1 and wrap.count(b'%s') == 1, 'html2stan: wrapper')
-    need(ast.dump(a0.value) == ast.dump(ast.parse("XMLString(%r %% html).load()[0]" % wrap).body[0].value),
-         'html2stan: XMLString(...).load()[0]')
-    pre, post = wrap.split(b'%s')
-    m = re.fullmatch(rb'<([a-z]+)>', pre)
-    need(m is not None and post == b'</' + m.group(1) + b'>', 'html2stan: wrapper is not <x>%s</x>')
-    need(ast.dump(body[3]) == ast.dump(ast.parse("stan.tagName = ''").body[0]), "html2stan: stan.tagName = ''")
-    need(isinstance(body[4], ast.Return) and is_name('stan')(body[4].value), 'html2stan: return stan')
-    return {'ctrl': cls, 'ctrl_repl': repl, 'wrap_tag': m.group(1), 'xml_decl': b'<?xml'}
+    for c in range(32):
+        r = observe(b'a' + bytes([c]) + b'b')
+        if r[0] != 'ok':
+            continue
+        want = 'a' + ('\n' if c == 13 else chr(c)) + 'b'
+        if r[1] != want:
+            need(r[1].startswith('a') and r[1].endswith('b') and len(r[1]) > 2, 'html2stan(%r) gives %r' % (bytes([c]), r[1]))
+            sub = r[1][1:-1]
+            need(sub.isascii() and all(ch not in '<>&\r\n' and ord(ch) >= 32 for ch in sub), 'substitute for byte %d is %r' % (c, sub))
+            repl.append((c, sub.encode('ascii')))
+    cls = [c for c, _ in repl]
+    # bytes >= 32 are left alone
+    for c in range(32, 128):
+        if chr(c) in '<&':
+            continue
+        r = observe(b'a' + bytes([c]) + b'b')
+        need(r == ('ok', 'a' + {'>': '&gt;'}.get(chr(c), chr(c)) + 'b'), 'html2stan changes byte %d: %r' % (c, r))
+    table = dict(repl)
+
+    def reference(data: Any) -> Any:
+        try:
+            b = data.encode('utf8') if isinstance(data, str) else data
+            b = b''.join(table.get(x, bytes([x])) for x in b)
+            if b.startswith(b'<?xml'):
+                st = XMLString(b).load()[0]
+                if not (isinstance(st, Tag) and st.tagName == 'html'):
+                    return ('assert',)
+            else:
+                st = XMLString(wraps[0] % b).load()[0]
+            st.tagName = ''
+            return ('ok', flat(st))
+        except SAXParseException:
+            return ('sax',)
+        except UnicodeError:
+            return ('unicode',)
+    probes: List[Any] = ['', 'x', 'a&amp;b<i>x</i>', '<p>a</p><p>b</p>', '<a href="u" class="c">t</a>', '<br/>', 'a<b', 'a&b', '</div><div>',
+                         '<!-- c -->x', '<![CDATA[<x>]]>', '&lt;&gt;&quot;&#64;', '&nbsp;', '\x0c', '\x7f', '\xe9 ', ' \t\r\n ', 'a\r\nb\rc',
+                         '<?xml version="1.0"?><html><p>x</p></html>', '<?xml version="1.0"?><p>x</p>', '<?xmlx', 'x<?xml',
+                         b'bytes <b>x</b>', b'\x01\x02<i>\x1f</i>', '\x00<i a="\x01">\x0b</i>', '<div>x</div>', ']]>', '<i>' * 3 + '</i>' * 3,
+                         '<span class="rst-x">y</span>\n', '<wbr></wbr>', "<a b='1' c=\"2\"/>"]
+    probes += ['t%sx<i>%s</i>' % (chr(c), chr(c)) for c in range(32)]
+    for pr in probes:
+        a, b = observe(pr), reference(pr)
+        need(a == b, 'html2stan(%r) = %r, neutralise + wrap + parse gives %r' % (pr, a, b))
+    return {'ctrl': cls, 'ctrl_repl': repl, 'wrap_tag': tag, 'xml_decl': b'<?xml'}
 
 
 FIELDS = {'name': 0, 'package': 1, 'version': 2, 'replacement': 3}
